@@ -242,6 +242,9 @@ func (pConn *PFCPConn) handleSessionModificationRequest(msg message.Message) (me
 
 	remoteSEID = session.remoteSEID
 
+	// TEIDs chosen by the UPF that no PDR of the session uses any more once this request is applied
+	staleTEIDs := make([]uint32, 0)
+
 	addPDRs := make([]pdr, 0, MaxItems)
 	addFARs := make([]far, 0, MaxItems)
 	addQERs := make([]qer, 0, MaxItems)
@@ -298,6 +301,20 @@ func (pConn *PFCPConn) handleSessionModificationRequest(msg message.Message) (me
 		}
 
 		p.fseidIP = fseidIP
+
+		// A TEID the UPF chose for this PDR stays allocated to it as long as the PDR
+		// matches on it; it goes back to the generator when the PDR moves to another one.
+		for _, old := range session.pdrs {
+			if old.pdrID != p.pdrID || !old.UPAllocateFteid {
+				continue
+			}
+
+			if old.tunnelTEID == p.tunnelTEID {
+				p.UPAllocateFteid = true
+			} else {
+				staleTEIDs = append(staleTEIDs, old.tunnelTEID)
+			}
+		}
 
 		err = session.UpdatePDR(p)
 		if err != nil {
@@ -367,6 +384,10 @@ func (pConn *PFCPConn) handleSessionModificationRequest(msg message.Message) (me
 			return sendError(err)
 		}
 
+		if p.UPAllocateFteid {
+			staleTEIDs = append(staleTEIDs, p.tunnelTEID)
+		}
+
 		delPDRs = append(delPDRs, *p)
 	}
 
@@ -433,6 +454,10 @@ func (pConn *PFCPConn) handleSessionModificationRequest(msg message.Message) (me
 	err := pConn.store.PutSession(session)
 	if err != nil {
 		logger.PfcpLog.Errorf("failed to put PFCP session to store: %v", err)
+	}
+
+	for _, teid := range staleTEIDs {
+		upf.fteidGenerator.FreeID(teid)
 	}
 
 	// Build response message
